@@ -164,6 +164,7 @@ class World:
         self.log = []       # executed operations (for messages)
         self.probe_after_insert = False
         self.inserted = False
+        self.linked = None
 
     # -- comparison -------------------------------------------------------------
     def compare(self):
@@ -363,6 +364,7 @@ def em_op(world, op, rng=None, params=None):
                 arr["radius"][i] = v
                 model[i].radius = v
                 rec.hit("probe:mutation")
+                world.linked = (em, arr, [id(d) for d in em])  # remembered: in-place edits of members must reach it
     elif op == 10:  # merge members in place
         ok = len(model) >= 2
         i, j = (P.get("i", 0) % max(1, len(model)), P.get("j", 1) % max(1, len(model)))
@@ -384,6 +386,18 @@ def em_op(world, op, rng=None, params=None):
                 rec.check(abs(vol(float(got[dim])) - V) <= 1e-12 * V and bool(np.all(np.abs(got[:dim] - com) <= 1e-12 * scale)),
                           "content", f"in-place merge of members: got {got.tolist()}, expected volume {V} at {com.tolist()}")
                 mi.p[:] = got  # resynchronise (bitwise afterwards)
+                lk = getattr(world, "linked", None)
+                if lk is not None and lk[0] is em and i < len(lk[2]) and lk[2][i] == id(em[i]) and len(lk[1]) == len(em):
+                    # the member was linked into one array ("if entries in this array are modified, it will be reflected
+                    # in the droplets"): that link has to survive an in-place merge of the member
+                    v2 = float(got[dim]) * 0.5 + 0.125
+                    lk[1]["radius"][i] = v2
+                    rec.check(em[i].radius == v2, "ownership",
+                              f"after get_linked_data() and an in-place merge of member {i}, writing to the linked array no longer "
+                              f"reaches the member (radius {em[i].radius} instead of {v2}); ops {world.log[-6:]}")
+                    if em[i].radius == v2:
+                        mi.radius = v2
+                    rec.hit("probe:mutation")
     elif op == 11:  # clear
         note("clear()")
         em.clear()
